@@ -490,6 +490,9 @@ class Array(metaclass=MetaArray):
         ):  # is a scalar type:
             if not isinstance(value, buffer.context.nplike_array_type):
                 value = buffer.context.nparray_to_context_array(value)
+            if len(info.shape) > 1:
+                # bring the axes in memory order: the copy flattens in C order
+                value = value.transpose(info.order)
             buffer.update_from_nplike(coffset, cls._itemtype._dtype, value)
         elif isinstance(value, cls):
             if value._size == info.size:
